@@ -315,6 +315,7 @@ type UnitResult struct {
 	Assumes  []string
 	Used     []string
 	Missing  bool
+	Replay   *ReplayInfo
 }
 
 func numberLoops(body *ast.BlockStmt) map[ast.Stmt]int {
@@ -388,6 +389,7 @@ func (e *Engine) verifyUnit(c *Contract) *UnitResult {
 		x.run()
 	}()
 	res.Obligs = x.obligs
+	res.Replay = x.replay
 	res.Errors = append(res.Errors, x.errs...)
 	for k := range x.abstr {
 		res.Abstr = append(res.Abstr, k)
@@ -491,20 +493,43 @@ func (x *Exec) run() {
 	for _, o := range outs {
 		x.finish(o, nil)
 	}
+	x.replay = x.buildReplayInfo()
 	if x.nReturns == 0 && len(x.errs) == 0 {
 		x.fail(u.Decl.Pos(), "no return state reached")
 	}
 }
 
 // recordInput registers what the solver should be asked for on sat.
+// Pointers to structs are followed one level (fields read from the entry heap).
 func (x *Exec) recordInput(name string, t types.Type, v Value, st *State) {
+	x.recordInputD(name, t, v, st, 0)
+}
+
+func (x *Exec) recordInputD(name string, t types.Type, v Value, st *State, depth int) {
 	switch v := v.(type) {
 	case Sc:
-		kind := "int"
-		if v.T.S.Kind == SBool {
-			kind = "bool"
+		if _, ok := intInfoOf(t); ok {
+			x.inputs = append(x.inputs, ModelInput{Name: name, Kind: "int", T: v.T, Type: t.String(), GoT: t})
+			return
 		}
-		x.inputs = append(x.inputs, ModelInput{Name: name, Kind: kind, T: v.T, Type: t.String()})
+		if isBoolType(t) {
+			x.inputs = append(x.inputs, ModelInput{Name: name, Kind: "bool", T: v.T, Type: t.String(), GoT: t})
+			return
+		}
+		if pt, ok := t.Underlying().(*types.Pointer); ok && depth == 0 {
+			if su, ok := pt.Elem().Underlying().(*types.Struct); ok {
+				x.inputs = append(x.inputs, ModelInput{Name: name, Kind: "ptr", T: v.T, Type: t.String(), GoT: t})
+				for i := 0; i < su.NumFields(); i++ {
+					f := su.Field(i)
+					fv := x.heapLoad(st, f.Type(), v.T, typeKey(pt.Elem())+"."+f.Name())
+					x.recordInputD(name+"."+f.Name(), f.Type(), fv, st, depth+1)
+				}
+			}
+			return
+		}
+		if errorLike(t) || isErrorType(t) {
+			x.inputs = append(x.inputs, ModelInput{Name: name, Kind: "error", T: v.T, Type: t.String(), GoT: t})
+		}
 	case Sl:
 		if len(x.slComp(st, v)) == 1 {
 			if b, ok := sliceElemBasic(t); ok && b {
@@ -512,14 +537,14 @@ func (x *Exec) recordInput(name string, t types.Type, v Value, st *State) {
 				if v.Str {
 					kind = "string"
 				}
-				x.inputs = append(x.inputs, ModelInput{Name: name, Kind: kind, Len: v.Len, Off: v.Off, Arr: x.slComp(st, v)[0], Type: t.String()})
+				x.inputs = append(x.inputs, ModelInput{Name: name, Kind: kind, Len: v.Len, Off: v.Off, Arr: x.slComp(st, v)[0], Nil: v.Nil, Type: t.String(), GoT: t})
 			}
 		}
 	case St:
 		u, ok := t.Underlying().(*types.Struct)
 		if ok {
 			for i, f := range v.Fields {
-				x.recordInput(name+"."+u.Field(i).Name(), u.Field(i).Type(), f, st)
+				x.recordInputD(name+"."+u.Field(i).Name(), u.Field(i).Type(), f, st, depth)
 			}
 		}
 	}
